@@ -215,7 +215,7 @@ class Synth(object):
     pass
 
 
-def make_synth(chk, rng, idx, kind):
+def make_synth(chk, rng, idx, kind, p=None):
     sy = Synth()
     sy.kind = kind
     sy.dir = os.path.join(chk.work(), 'syn%04d' % idx)
@@ -251,7 +251,7 @@ def make_synth(chk, rng, idx, kind):
         sy.hdr[5][1] = 'first line' + '\n' + sy.hdr[5][1]
         sy.wellformed = False
     sy.s, sy.n = s, n
-    sy.p = rng.choice([0, 1, 1, 1, 2, 3, 4, 6])
+    sy.p = rng.choice([0, 1, 1, 1, 2, 3, 4, 6]) if p is None else p
     sy.vals = []
     for _ in range(n):
         can = 273.15 + gen_double(rng, sy.p) if rng.random() < 0.8 else gen_double(rng, sy.p)
@@ -394,6 +394,19 @@ def run_e2e(chk, UWG, idx, cfg):
         lines = f.read().split('\n')
     ans = 'ok ' + enc('\n'.join(lines[:8] + lines[8 + lo:8 + hi]) + '\n')
     if msg is None:
+        # the same finished run written again at other precisions (0..20): the records are the same doubles, the
+        # rewritten cells must carry exactly the configured number of decimals each time
+        for q in sorted(set(chk.rng.sample(range(0, 21), 1 if chk.tier == 'quick' else 8) + [chk.rng.randint(15, 20)])):
+            m.epw_precision = q
+            with contextlib.redirect_stdout(io.StringIO()):
+                m.write_epw()
+            msgq = oracle_file(rural, m.new_epw_path, s, vals, q, h)
+            if msgq:
+                msg = 'the same run written again with epw_precision = %d: %s' % (q, msgq)
+                prec = q
+                break
+        m.epw_precision = prec
+    if msg is None:
         # the same object again with another window: the second file must again differ from the
         # rural file in its own window only (nothing of the first run may leak into it)
         mo2, dy2 = (mo % 12) + 1, 10
@@ -407,7 +420,7 @@ def run_e2e(chk, UWG, idx, cfg):
         msg2 = oracle_file(rural, m.new_epw_path, s2, vals2, prec, h)
         if msg2:
             msg = 'second run on the same object (window %d/%d after %d/%d): %s' % (mo2, dy2, mo, dy, msg2)
-    case = {'replay_kind': 'e2e', 'epw_path': epw, 'uwg_path': uwgf, 'epw': os.path.basename(epw), 'month': mo, 'day': dy, 'nday': nd, 'dtsim': dt,
+    case = {'replay_kind': 'e2e', 'rewritten_with_precisions': '0..20 (sample)', 'epw_path': epw, 'uwg_path': uwgf, 'epw': os.path.basename(epw), 'month': mo, 'day': dy, 'nday': nd, 'dtsim': dt,
             'precision': prec, 'window_start_row': s}
     return line, ans, msg, case
 
@@ -513,6 +526,16 @@ def run(chk):
             continue      # -0.0 has no rational counterpart
         q = F(x)
         fa.append(('fmt num=%d den=%d p=%d' % (q.numerator, q.denominator, p), 'ok ' + enc('{0:.{1}f}'.format(x, p))))
+    # every precision 0..20 (a double carries ~17 significant digits; the digits beyond are those of its exact
+    # binary value and must still be printed: "at the configured precision")
+    for p in range(0, 21):
+        for _ in range(24 if not big else 200):
+            x = gen_double(rng, p)
+            if x == 0 and str(x).startswith('-'):
+                continue
+            q = F(x)
+            fa.append(('fmt num=%d den=%d p=%d' % (q.numerator, q.denominator, p),
+                       'ok ' + enc('{0:.{1}f}'.format(x, p))))
     for x, p in [(0.125, 2), (0.375, 2), (2.5, 0), (3.5, 0), (0.5, 0), (1.5, 0), (-0.5, 0), (-0.04, 1),
                  (-0.05, 1), (1e22, 1), (2.675, 2), (0.0, 1), (0.0, 0), (99.95, 1), (-1e-300, 3), (5e-324, 6)]:
         q = F(x)
@@ -524,11 +547,13 @@ def run(chk):
         t = 'tie' if (q - q.__floor__()) == F(1, 2) else 'no-tie'
         if impl.startswith('ok -0') and set(impl[4:]) <= set('0.'):
             t += ',negative-zero'
-        return 'p=%s,%s' % ('0' if a['p'] == '0' else '>0', t)
+        return 'p=%s,%s' % ('0' if a['p'] == '0' else '1..6' if int(a['p']) <= 6 else '7..15' if int(a['p']) <= 15
+                            else '16..20', t)
     chk.correspond("'{0:.{1}f}'~fmtFixed", 'C01', fa,
                    rule="CPython '{0:.{1}f}'.format(x, p) (the format string of write_epw) on generated doubles "
-                        "vs Lean fmtFixed on the exact rational value of the double, p in 0..6: uniform values, "
-                        "integers, exact binary ties, negatives rounding to zero, 1e5..1e25, denormals",
+                        "vs Lean fmtFixed on the exact rational value of the double, p in 0..6 (bulk) and every p in "
+                        "0..20: uniform values, integers, exact binary ties, negatives rounding to zero, 1e5..1e25, "
+                        "denormals",
                    classify=cls_fmt)
 
     # ---------------------------------------------------------------- (n) default output name
@@ -606,6 +631,35 @@ def run(chk):
                 obad += 1
                 chk.violation('impl-violation', 'rural file modified by a failing write_epw',
                               case={'kind': kind}, observed='hash changed', expected='unchanged')
+    # every output precision 0..20 (and a few beyond): the shape of EVERY rewritten cell is -?d+(.d{p})? with
+    # exactly the configured number of decimals, whatever the magnitude of the value
+    precs = list(range(0, 21)) + ([25, 30] if not big else [22, 25, 30, 40] + list(range(0, 21)) * 2)
+    pbad = 0
+    for k, p in enumerate(precs):
+        sy = make_synth(chk, rng, 8000 + k, 'ok', p=p)
+        line, ans, out_path, written, _ = run_synth(UWG, sy)
+        if p <= 20:
+            wa.append((line, ans))
+        branches['ok(precision sweep)'] = branches.get('ok(precision sweep)', 0) + 1
+        msg = ('write_epw raised (%s) on a well-formed file and window' % ans) if not ans.startswith('ok') else \
+            oracle_file(sy.path, out_path, sy.s, written, sy.p, sy.hash)
+        if msg:
+            pbad += 1
+            if pbad <= 2:
+                chk.violation('impl-violation', 'T2/T3 oracle on the file written by write_epw (precision sweep)',
+                              case={'replay_kind': 'synthetic-write', 'rural_file_text': sy.text_lf,
+                                    'window_start_row': sy.s, 'hours': sy.n, 'precision': sy.p,
+                                    'values_canTemp_Tdp_canRHum_wind': [list(map(repr, w)) for w in sy.vals],
+                                    'default_output_name': sy.default_out, 'rural_name': sy.name},
+                              observed=msg, expected='every rewritten field is a decimal number with exactly '
+                                                     'epw_precision = %d places, within half a unit of the value' % p)
+    chk.direct('T2/T3-oracle(write_epw, every precision 0..20)', len(precs), len(precs),
+               'the real write_epw on synthetic state for EVERY epw_precision 0..20 and 25, 30 (shipped default 1, '
+               'test-suite 16): each rewritten field (dry bulb, dew point, RH, wind; values of every magnitude incl. '
+               'ties and negatives rounding to zero) must match -?d+(.d{p})? with exactly p decimals and lie within '
+               'half a unit of the last place of the value; everything else unchanged; p <= 20 also byte for byte '
+               'against Lean writeEpw', mismatches=pbad,
+               branches={'precisions': len(set(precs))})
     # non-ASCII text in header cells and unmodelled columns (UTF-8 files, UTF-8 locale): oracle only, the
     # line protocol of the model is ASCII
     nutf, butf = 0, 0
@@ -638,7 +692,8 @@ def run(chk):
                    rule='the REAL UWG.write_epw (object state set by the harness: _read_epw of a synthetic rural '
                         'file, UCMData/WeatherData namespaces, simTime.timeInitial, epw_precision; no simulation) '
                         'vs Lean writeEpw: the complete written text, byte for byte, or IndexError; windows at the '
-                        'start/end/inside, 0/1/24/48 hours, p in 0..6, rows of 22..42 cells; error stream: window '
+                        'start/end/inside, 0/1/24/48 hours, p in 0..6 and a sweep over every p in 0..20, rows of 22..42 cells; '
+                        'error stream: window '
                         'past the end, short/blank row in the window, fewer than 8 header rows',
                    nontrivial=lambda line, impl: impl.startswith('ok'),
                    classify=lambda line, impl: 'written' if impl.startswith('ok') else impl)
@@ -672,7 +727,8 @@ def run(chk):
                             'written file vs Lean writeEpw fed with the recorded UCMData/WeatherData values',
                        classify=lambda line, impl: 'p=' + line.rsplit('p=', 1)[1])
     chk.direct('T2/T3-oracle(end-to-end)', len(ea), len(ea),
-               'same oracle on the complete 8768-line files of real runs; rural copy hashed before/after',
+               'same oracle on the complete 8768-line files of real runs; rural copy hashed before/after; each finished '
+               'run is written again at further precisions sampled from 0..20 (one of them in 15..20) and judged again',
                mismatches=ebad, branches=eb)
     if not ea:
         chk.corr_problems.append({'tie': 'e2e', 'case': None, 'impl': 'no end-to-end run completed',
